@@ -25,7 +25,7 @@ theorem healthy_facts {p : Pod} (h : p.healthy = true) :
 theorem firstUnhealthy_fold_healthy (ps : List Pod) (hh : ∀ p ∈ ps, p.healthy = true) (acc : (Option Pod × Int) × Nat) :
     ps.foldl (fun (acc : (Option Pod × Int) × Nat) p =>
       if !p.healthy then
-        if p.ord < acc.1.2 then ((some p, p.ord), acc.2 + 1) else (acc.1, acc.2 + 1)
+        if acc.1.1.isNone || p.ord < acc.1.2 then ((some p, p.ord), acc.2 + 1) else (acc.1, acc.2 + 1)
       else acc) acc = acc := by
   induction ps generalizing acc with
   | nil => rfl
